@@ -64,12 +64,37 @@ def run_seq(a, full):
             fin = True
             L = unoi(st[2]) if len(st) > 2 else None
             r = guarded(lambda: hx(h.update(unhx(st[1]), bitlen=L, padding=True)))
+        elif st[0] == 'call':
+            fin = True
+            r = guarded(lambda: hx(h(unhx(st[1]), unoi(st[2]))))
         else:
             raise RuntimeError('bad step %r' % st)
         p = h.padmethod
         if full: out.append('%s,%s,%d,%d' % (r, bo(p.padflag), p.bitcnt, p.padcnt))
         elif fin or st[0] == 'preset': out.append(r)
         else: out.append('%s,%d' % (r, p.bitcnt))
+    return ';'.join(out)
+
+
+def run_calls(a):
+    """hashcalls <alg> | step | step …  — ONE object of the library for the whole line; steps as in hashseq plus
+    `call <hex> <bitlen|None>` (= h(M,bitlen)); the result lists the outcome of every `call` step only (the other steps
+    are executed, whatever they raise, and leave the object in whatever state they leave it)"""
+    steps = split_bar(a)
+    h = mk(steps[0][0])
+    out = []
+    for st in steps[1:]:
+        if st[0] == 'preset':
+            h.padmethod.bitcnt = int(st[1])
+        elif st[0] == 'upd':
+            guarded(lambda: h.update(unhx(st[1])))
+        elif st[0] == 'fin':
+            L = unoi(st[2]) if len(st) > 2 else None
+            guarded(lambda: h.update(unhx(st[1]), bitlen=L, padding=True))
+        elif st[0] == 'call':
+            out.append(guarded(lambda: hx(h(unhx(st[1]), unoi(st[2])))))
+        else:
+            raise RuntimeError('bad step %r' % st)
     return ';'.join(out)
 
 
@@ -106,6 +131,7 @@ def run_impl(line):
     if op == 'hash': return run_hash(a)
     if op == 'hashseq': return run_seq(a, False)
     if op == 'hashseqc': return run_seq(a, True)
+    if op == 'hashcalls': return run_calls(a)
     if op in ('hmac', 'hmacgen', 'hmacseq'): return run_hmac(op, a)
     raise RuntimeError('unknown op ' + op)
 
